@@ -25,8 +25,10 @@ from . import par, tlc, zenv
 from .interpose import Interposer
 
 PAGES = ["a.zo", "b.zo", "c.zo"]
-CLI = ["a.zo"]
-KA_PATHS = [{"paths": ["b.zo", "a.zo"], "focus": "a.zo"}, {"paths": ["c.zo"], "focus": "c.zo"}]
+CLI = ["a.zo", "q.zoq"]
+ZOQ_QUERY = "S note W f=b O none"
+KA_PATHS = [{"paths": ["b.zo", "a.zo"], "focus": "a.zo"}, {"paths": ["c.zo"], "focus": "c.zo"},
+            {"paths": ["q.zoq", "b.zo"], "focus": "q.zoq"}]
 NOTES_PER_PAGE = 6
 BROKEN = "!!broken line\n"
 DAY1, DAY2 = "2024-01-02", "2024-01-03"
@@ -35,7 +37,8 @@ STAMP2 = "240103"
 
 def _initial_page(p: str) -> str:
     kinds = ["-", "o", "o P1", "x", "-", "~ P2"]
-    return f"# Page {p[0]} +pj_{p[0]}\n\n" + "".join(f"{kinds[i % 6]} u{i + 1}v0 w{i}\n" for i in range(NOTES_PER_PAGE))
+    return f"# Page {p[0]} +pj_{p[0]}\n\n" + "".join(
+        f"{kinds[i % 6]} u{i + 1}v0 w{i} due::2024-05-0{i + 1} +tg_{p[0]}{i}\n" for i in range(NOTES_PER_PAGE))
 
 
 def _norm(eff: dict):
@@ -53,7 +56,7 @@ def _norm(eff: dict):
     names = {"org/.zorg/file_hash.json": "hash", "org/.zorg/error_file_whitelist.txt": "wl", "org/.zorg/next_ids.json": "ids"}
     if t in names:
         return ["w", names[t]]
-    if t.startswith("org/") and t.endswith(".zo") and "/." not in t:
+    if t.startswith("org/") and t.endswith((".zo", ".zoq")) and "/." not in t:
         return ["w", t[4:]]
     return ["?", f"{kind} {t}"]
 
@@ -110,7 +113,7 @@ class User:
             t = env.read(p)
             if k == "plain":
                 lines = t.split("\n")
-                lines[0] = lines[0] + " +t" + str(self.rng.randrange(1000))     # the title changes, no note does
+                lines[0] = lines[0] + " rev" + str(self.rng.randrange(1000))     # the title changes, no note does
                 t = "\n".join(lines)
             if k in ("mod", "both"):
                 u = self.next_mod[p]
@@ -195,6 +198,7 @@ def one_history(args) -> dict:
     try:
         for p in PAGES:
             env.write(p, _initial_page(p))
+        env.write("q.zoq", f"# {ZOQ_QUERY}\n")
         r = env.db_create()
         if not r.ok:
             return {"id": seed, "trace": [], "problems": [("setup", repr(r))], "script": []}
@@ -235,6 +239,16 @@ def one_history(args) -> dict:
                 script.append({"edits": ed, "ka": ka})
                 ip._active = False
                 try:
+                    if k >= 1 and "q.zoq" in paths:
+                        # from the second session on every page is indexed and written back: the saved-query page that was
+                        # just refreshed must show the notes of b.zo as they are now
+                        from . import emit
+                        z = env.read("q.zoq")
+                        m = re.fullmatch(re.escape(f"# {ZOQ_QUERY}\n#\n{emit.STATS}") + r"[-0-9]{10} AT [0-9:]{8}\.\n\n(.*?)\n?", z, re.S)
+                        texts = [n.to_string().rstrip() for n in env.compile("b.zo").notes]
+                        bad = "not header + stats line + results" if not m else emit._match_entries(m.group(1), texts)
+                        if bad:
+                            problems.append(("zoq", (f"saved-query page refreshed before editor session {k + 1}: {bad}", z[:1500])))
                     user.apply(env, ed)
                     if ka["st"] == "empty":
                         (env.root / "keep_alive").write_text("")
@@ -246,8 +260,8 @@ def one_history(args) -> dict:
 
             def on_effect(e):
                 n = _norm(e)
-                if n is not None:
-                    trace.append(n)
+                if n is not None and not (n == ["commit", "db"] and trace and trace[-1] == n):
+                    trace.append(n)              # a run of commits is one observable ("one or more commits")
 
             with patch("vimala._vim.proctor.safe_popen", fake_popen):
                 with Interposer(env.root, on_effect=on_effect) as ip:
